@@ -27,6 +27,10 @@ def lib_classes():
 NEXTLF = z3.Function("NextLF_src", z3.IntSort(), z3.IntSort())
 
 
+def nextlf_fun(arr):
+    return NEXTLF if arr.name == "src" else z3.Function(f"NextLF_{arr.name}", z3.IntSort(), z3.IntSort())
+
+
 def new_stream(st, faultfree=False, name="src"):
     o = HObject("ext.Stream")
     arr = ByteArr.get(name)
@@ -45,8 +49,9 @@ def spos(st, stream):
 def nextlf_facts(st, stream, p):
     """Definitional instance for NextLF at p: the first 0x0A at or after p (or end)."""
     f = st.obj(stream).fields
-    n = NEXTLF(p)
-    st.assume(z3.And(n >= p, n <= f["end"], z3.Implies(n < f["end"], byte_at(st, f["arr"], n) == 0x0A)))
+    n = nextlf_fun(f["arr"])(p)
+    # first 0x0A at or after p: if there is one before `end` it is NextLF; a stream shorter than NextLF has none
+    st.assume(z3.And(n >= p, z3.Implies(n < f["end"], byte_at(st, f["arr"], n) == 0x0A)))
     return n
 
 
@@ -88,6 +93,7 @@ class StreamReadline(Contract):
         nl = nextlf_facts(st, selfv, pos)
         if f["faultfree"]:
             d = z3.If(nl < end, nl + 1 - pos, end - pos)
+            st.assume(end >= pos)
         else:
             d = z3.Int(f"rl{f['reads']}_{st.next_oid[0]}")
             st.next_oid[0] += 1
@@ -900,9 +906,35 @@ class ReaderInit(Contract):
 
     # a non-socket stream is stored as it is; options are stored verbatim; the stream is not touched
     def instances(self, tier):
-        return ["filelike"]
+        return ["filelike", "socket"]
+
+    def verify_socket(self, eng):
+        from contracts.socketw import W, new_socket
+        fi = extract.func(self.qualname)
+        st = State()
+        sock = new_socket(st)
+        o = HObject(R)
+        o.pycls = extract.module("pyrtcm.rtcmreader").RTCMReader
+        selfv = st.alloc(o)
+        names = ["validate", "quitonerror", "labelmsm", "bufsize", "parsed", "encoding"]
+        args = {n: SInt(z3.Int(f"opt_{n}")) for n in names}
+        args["errorhandler"] = None
+        canary = []
+        for s, out in eng.exec_function(fi, st, dict(self=selfv, datastream=sock, **args), contract=self):
+            if isinstance(out, RaiseExc):
+                eng.oblige(f"{self.qualname}.socket.raises_nothing", s, False, kind="exc", note=out.cls.__name__)
+                continue
+            canary.append(s)
+            strm = s.obj(selfv).fields.get("_stream")
+            ok = isinstance(strm, Ref) and s.obj(strm).cls == W
+            good = ok and s.obj(strm).fields.get("_socket") == sock and s.obj(strm).fields.get("_bufsize") is args["bufsize"] \
+                and s.obj(strm).fields.get("_encoding") is args["encoding"]
+            eng.oblige(f"{self.qualname}.post.socket_is_wrapped_with_bufsize_and_encoding", s, z3.BoolVal(bool(good)))
+        return canary
 
     def verify(self, eng, inst):
+        if inst == "socket":
+            return self.verify_socket(eng)
         fi = extract.func(self.qualname)
         st = State()
         stream = new_stream(st)
